@@ -196,3 +196,59 @@ Theorem cyclic_metadata_scan_does_not_end :
   scan_deps apropos_ex4 [p_son; p_sp] 200 p_son p_son = Some [p_sp] /\
   scan_deps apropos_ex4 [p_son; p_sp] 200 p_sp p_sp = Some [p_son].
 Proof. repeat split; vm_compute; reflexivity. Qed.
+
+(* ---- fifth witness (stage 5): before fix 8301891 the scan read the metadata of
+   the port and of its parents ("name/") only.  A directory that is enabled as a
+   whole by one of its own ports - rSelf(.., rEnabledBy(on)): the metadata sits
+   on the directory's "self:" port - gave no edge: "/s/x" could be applied
+   before "/s/on".  [scan_deps_old4] is the loop without the second lookup. *)
+Section Old4.
+  Variable apropos : str -> option pmeta.
+  Variable keys : list str.
+  Fixpoint scan_deps_old4 (fuel : nat) (orig cur : str) : option (list str) :=
+    match fuel with
+    | O => None
+    | S f =>
+        fold_left
+          (fun acc (ic : bool * str) =>
+             let c := snd ic in
+             match apropos (if fst ic then c ++ [slash] else c) with
+             | None => acc
+             | Some m =>
+                 fold_left
+                   (fun acc e =>
+                      match acc, rel2abs e c with
+                      | Some l, Some a =>
+                          if str_eqb a orig || str_eqb a cur then Some l
+                          else if has_key keys a then Some (l ++ [a])
+                          else match scan_deps_old4 f orig a with
+                               | Some l' => Some (l ++ l')
+                               | None => None
+                               end
+                      | _, _ => None
+                      end)
+                   (dep_values m) acc
+             end)
+          (flagged (ancestors cur)) (Some [])
+    end.
+End Old4.
+
+Definition p_sself : str := p_s ++ self_name.                       (* /s/self: *)
+Definition p_ssubx : str := p_s ++ [116; 47; 120].                   (* /s/t/x   *)
+Definition apropos_ex5 (p : str) : option pmeta :=
+  if str_eqb p p_sself then Some {| enabled_by := Some [111; 110]; depends := None; default_depends := None |}
+  else if str_eqb p p_s then Some none_meta
+  else if str_eqb p p_son then Some none_meta
+  else if str_eqb p p_sx then Some none_meta
+  else if str_eqb p p_ssubx then Some none_meta
+  else None.
+
+Theorem rself_switch_before_fix_refuted :
+  (* the old scan: no edge for the ports of the directory, at any depth *)
+  scan_deps_old4 apropos_ex5 [p_son; p_sx; p_ssubx] 60 p_sx p_sx = Some [] /\
+  scan_deps_old4 apropos_ex5 [p_son; p_sx; p_ssubx] 60 p_ssubx p_ssubx = Some [] /\
+  (* the fixed scan: both wait for the switch, the switch does not wait for itself *)
+  scan_deps apropos_ex5 [p_son; p_sx; p_ssubx] 60 p_sx p_sx = Some [p_son] /\
+  scan_deps apropos_ex5 [p_son; p_sx; p_ssubx] 60 p_ssubx p_ssubx = Some [p_son] /\
+  scan_deps apropos_ex5 [p_son; p_sx; p_ssubx] 60 p_son p_son = Some [].
+Proof. repeat split; vm_compute; reflexivity. Qed.
